@@ -54,7 +54,7 @@ fn two_different(c: &mut Choices) -> ((String, String), (String, String)) {
     }
 }
 
-pub const N_SNIPPETS: usize = 40;
+pub const N_SNIPPETS: usize = 42;
 
 pub fn snippet(k: usize, c: &mut Choices) -> Snippet {
     let mut decls = String::new();
@@ -514,6 +514,33 @@ pub fn snippet(k: usize, c: &mut Choices) -> Snippet {
                 _ => "let zz = f\"{{ {Option.Some(1)} }}\";\n",
             };
             ("interpolation-of-a-value-without-a-fitting-to-string", s.to_string())
+        }
+        40 => {
+            // the name a `let` declares is not in scope in its own initialiser, with or without an annotation
+            let t = num_ty(c);
+            let s = match c.below(8) {
+                0 => format!("let zz: {t} = zz + {};\n", num_lit(t, c)),
+                1 => "let zz = zz;\n".to_string(),
+                2 => "let zz: String = zz;\n".to_string(),
+                3 => format!("let zz: {t} = {{ zz }};\n"),
+                4 => "let zz: bool = !zz;\n".to_string(),
+                5 => format!("let zz: {t} = if true {{ zz }} else {{ {} }};\n", num_lit(t, c)),
+                6 => format!("let zz: {t}? = Option.Some(zz);\n"),
+                _ => "let zz: String = f\"{zz}\";\n".to_string(),
+            };
+            ("let-initialiser-mentions-the-variable-it-declares", s)
+        }
+        41 => {
+            // `x op= e` stores `x op e` in x, so that value has to have x's type: an address divided by a
+            // length is a prefix
+            let s = match c.below(5) {
+                0 => "let zz: IpAddr = 10.0.0.1;\nzz /= 24;\n",
+                1 => "let zz = 10.0.0.1;\nzz /= 24u8;\n",
+                2 => "let zz: IpAddr = ::1;\nzz /= 64;\n",
+                3 => "let zzr = { ip: 10.0.0.1, n: 1 };\nzzr.ip /= 8;\n",
+                _ => "let zz = 192.168.0.0;\nlet zzl: u8 = 16;\nzz /= zzl;\n",
+            };
+            ("compound-assignment-whose-result-has-another-type", s.to_string())
         }
         _ => {
             let s = match c.below(3) {
